@@ -444,3 +444,760 @@ def path_class(path):
 
 def digest_of(*parts):
     return hashlib.sha1(repr(parts).encode()).hexdigest()[:20]
+
+
+# ====================================================================================
+# DAG model with per-file history (C02, C03, C08, C41)
+#
+# Trees are keyed by file id: {fid: [parent_fid | None, name, kind, content, exec]} where
+# content is the text of a file, the target of a symlink, None for a directory and exec
+# is 0/1 (always 0 for non-files).  The root has parent None and name "".
+# Pure part first (no breezy imports).
+
+TZS = [0, 0, 3600, -18000, 19800]
+
+
+def ft_path(tree, fid):
+    parts = []
+    seen = 0
+    while tree[fid][0] is not None:
+        parts.append(tree[fid][1])
+        fid = tree[fid][0]
+        seen += 1
+        if seen > 64:
+            raise ValueError("cycle")
+    return "/".join(reversed(parts))
+
+
+def ft_paths(tree):
+    return {fid: ft_path(tree, fid) for fid in tree}
+
+
+def ft_valid(tree):
+    """Root present, parents are directories of the tree, names unique per directory,
+    no cycles."""
+    roots = [f for f, e in tree.items() if e[0] is None]
+    if len(roots) != 1 or tree[roots[0]][1] != "" or tree[roots[0]][2] != "directory":
+        return False
+    names = set()
+    for fid, e in tree.items():
+        if e[0] is None:
+            continue
+        if e[0] not in tree or tree[e[0]][2] != "directory" or not e[1]:
+            return False
+        if (e[0], e[1]) in names:
+            return False
+        names.add((e[0], e[1]))
+    try:
+        for fid in tree:
+            ft_path(tree, fid)
+    except ValueError:
+        return False
+    return True
+
+
+def ft_subtree(tree, fid):
+    out = {fid}
+    grew = True
+    while grew:
+        grew = False
+        for f, e in tree.items():
+            if e[0] in out and f not in out:
+                out.add(f)
+                grew = True
+    return out
+
+
+class MDag:
+    """Model of a revision DAG with a tree per revision and the per-file graph that C02
+    states: a revision R records a new version of file f iff f's (parent dir, name, kind,
+    content, exec) differs from the entry carried by the single per-file head among R's
+    parents, or the number of per-file heads is not 1."""
+
+    def __init__(self):
+        self.revs = {}  # rid -> spec
+        self.ver = {}  # rid -> {fid: last-changed rid}
+        self.fpar = {}  # (fid, rid) -> tuple of per-file parent rids
+        self.order = []
+        self.tips = {}  # branch -> rid   (generator state)
+        self.nfid = 0
+        self.nrev = {}
+        self.nghost = 0
+
+    def tree(self, rid):
+        return self.revs[rid]["tree"] if rid in self.revs else {}
+
+    def present_parents(self, rid):
+        return [p for p in self.revs[rid]["parents"] if p in self.revs]
+
+    def ancestry(self, rid):
+        seen = set()
+        todo = [rid]
+        while todo:
+            r = todo.pop()
+            if r in seen or r not in self.revs:
+                continue
+            seen.add(r)
+            todo.extend(self.revs[r]["parents"])
+        return seen
+
+    def fancestry(self, fid, rid):
+        seen = set()
+        todo = [rid]
+        while todo:
+            r = todo.pop()
+            if r in seen:
+                continue
+            seen.add(r)
+            todo.extend(self.fpar.get((fid, r), ()))
+        return seen
+
+    def fheads(self, fid, cands):
+        out = []
+        for c in cands:
+            if not any(o != c and c in self.fancestry(fid, o) for o in cands):
+                out.append(c)
+        return out
+
+    def file_rule(self, fid, ent, parents):
+        """(heads, carried) for an entry `ent` of file `fid` in a revision whose present
+        parents are `parents`: carried = the version it carries over, or None = the
+        revision records a new version with per-file parents `heads`."""
+        cands = []
+        carriers = {}
+        for p in parents:
+            pt = self.revs[p]["tree"]
+            if fid in pt:
+                v = self.ver[p][fid]
+                if v not in cands:
+                    cands.append(v)
+                carriers.setdefault(v, pt[fid])
+        heads = self.fheads(fid, cands)
+        if len(heads) == 1 and list(carriers[heads[0]]) == list(ent):
+            return heads, heads[0]
+        return heads, None
+
+    def add(self, spec):
+        rid = spec["id"]
+        parents = [p for p in spec["parents"] if p in self.revs]
+        ver = {}
+        for fid, ent in spec["tree"].items():
+            heads, carried = self.file_rule(fid, ent, parents)
+            if carried is not None:
+                ver[fid] = carried
+            else:
+                ver[fid] = rid
+                self.fpar[(fid, rid)] = tuple(heads)
+        self.revs[rid] = spec
+        self.ver[rid] = ver
+        self.order.append(rid)
+
+    def attested(self, rid, cls="strict3"):
+        """What a testament of class `cls` (v1 | strict | strict3) attests, per the
+        format definitions in breezy/bzr/testament.py."""
+        s = self.revs[rid]
+        tree = s["tree"]
+        paths = ft_paths(tree)
+        ents = []
+        for fid in sorted(tree, key=lambda f: paths[f]):
+            par, name, kind, content, ex = tree[fid]
+            if par is None and cls != "strict3":
+                continue
+            row = [kind, paths[fid], fid, content if kind != "directory" else None]
+            if cls != "v1":
+                row += [self.ver[rid][fid], bool(ex)]
+            ents.append(tuple(row))
+        props = tuple(sorted((k, tuple(v.splitlines())) for k, v in s.get("props", {}).items()))
+        return (rid, s["committer"], int(s["ts"]), s.get("tz", 0) or 0, tuple(sorted(s["parents"])), tuple(s["msg"].splitlines()), tuple(ents), props)
+
+
+def replay_dag(specs):
+    mh = MDag()
+    for s in specs:
+        if all(p in mh.revs or p in s.get("ghosts", []) for p in s["parents"]):
+            mh.add(s)
+    return mh
+
+
+class DagGen:
+    """Seeded generator of DAG histories over 1-4 branches.  Pure: uses only rng and the
+    model.  Each generated spec carries "tags" naming the situations it creates."""
+
+    def __init__(self, rng, mh=None, ts0=1_500_000_000, kinds=("file", "file", "file", "directory", "symlink"), exec_bits=True, ghosts=0.0, nick=None, prefix=""):
+        self.rng = rng
+        self.mh = mh or MDag()
+        self.ts0 = ts0
+        self.kinds = kinds
+        self.exec_bits = exec_bits
+        self.ghosts = ghosts
+        self.prefix = prefix
+        self.specs = []
+
+    # -- helpers -----------------------------------------------------------------
+    def _rid(self, branch):
+        mh = self.mh
+        mh.nrev[branch] = mh.nrev.get(branch, 0) + 1
+        return f"{self.prefix}{branch}-{mh.nrev[branch]}"
+
+    def _fid(self):
+        self.mh.nfid += 1
+        return f"{self.prefix}f{self.mh.nfid}"
+
+    def _content(self, rid):
+        return _content(self.rng, rid)
+
+    def _emit(self, branch, parents, tree, tags, ghosts=()):
+        mh = self.mh
+        rid = self._rid(branch)
+        spec = {
+            "id": rid,
+            "branch": branch,
+            "parents": list(parents),
+            "ghosts": list(ghosts),
+            "tree": {f: list(e) for f, e in tree.items()},
+            "ts": self.ts0 + 10 * len(mh.revs),
+            "tz": self.rng.choice(TZS),
+            "msg": f"commit {rid}\n\n{' '.join(tags)}",
+            "committer": COMMITTER,
+            "props": {"branch-nick": branch},
+            "tags": sorted(tags),
+        }
+        mh.add(spec)
+        mh.tips[branch] = rid
+        self.specs.append(spec)
+        return spec
+
+    def _dirs(self, tree):
+        return sorted(f for f, e in tree.items() if e[2] == "directory")
+
+    def _free_name(self, tree, parent):
+        used = {e[1] for e in tree.values() if e[0] == parent}
+        cand = [n for n in NAMES if n not in used]
+        if cand:
+            return self.rng.choice(cand)
+        return f"n{self.mh.nfid}_{len(used)}"
+
+    def _new_entry(self, tree, rid, kind=None):
+        rng = self.rng
+        dirs = [d for d in self._dirs(tree) if ft_path(tree, d).count("/") < 2]
+        parent = rng.choice(dirs)
+        kind = kind or rng.choice(self.kinds)
+        name = self._free_name(tree, parent)
+        if kind == "file":
+            return [parent, name, "file", self._content(rid), int(self.exec_bits and rng.random() < 0.25)]
+        if kind == "directory":
+            return [parent, name, "directory", None, 0]
+        return [parent, name, "symlink", rng.choice(["a", "b/c", "../x", "target " + rid]), 0]
+
+    def edit(self, tree, rid, tags, n=None):
+        """Apply 1-4 random edits to `tree` (in place)."""
+        rng = self.rng
+        n = n or rng.choice([1, 1, 2, 2, 3, 4])
+        for _ in range(n):
+            files = sorted(f for f, e in tree.items() if e[2] == "file")
+            nonroot = sorted(f for f, e in tree.items() if e[0] is not None)
+            r = rng.random()
+            trial = {f: list(e) for f, e in tree.items()}
+            tag = None
+            if r < 0.25 or not nonroot:
+                trial[self._fid()] = self._new_entry(trial, rid)
+                tag = "add"
+            elif r < 0.50 and files:
+                f = rng.choice(files)
+                old = self._old_contents(f)
+                if old and rng.random() < 0.25:
+                    c = rng.choice(old)
+                    tag = "revert_content"
+                else:
+                    c = self._content(rid)
+                    tag = "modify"
+                if c == trial[f][3]:
+                    c += "x\n"
+                trial[f][3] = c
+            elif r < 0.58 and files and self.exec_bits:
+                f = rng.choice(files)
+                trial[f][4] = 1 - trial[f][4]
+                tag = "exec"
+            elif r < 0.70:
+                f = rng.choice(nonroot)
+                if rng.random() < 0.5:
+                    trial[f][1] = self._free_name(trial, trial[f][0])
+                    tag = "rename"
+                else:
+                    dirs = [d for d in self._dirs(trial) if d not in ft_subtree(trial, f) and ft_path(trial, d).count("/") < 2]
+                    if dirs:
+                        d = rng.choice(dirs)
+                        trial[f][0] = d
+                        trial[f][1] = self._free_name(trial, d) if rng.random() < 0.5 or any(e[0] == d and e[1] == trial[f][1] for g, e in trial.items() if g != f) else trial[f][1]
+                        tag = "move"
+                if tag and trial[f][2] == "directory":
+                    tag += "_dir"
+            elif r < 0.80:
+                f = rng.choice(nonroot)
+                for g in ft_subtree(trial, f):
+                    trial.pop(g)
+                tag = "delete"
+            elif r < 0.90:
+                f = rng.choice(nonroot)
+                has_children = any(e[0] == f for e in trial.values())
+                if not has_children:
+                    kinds = [k for k in ("file", "directory", "symlink") if k != trial[f][2] and k in self.kinds]
+                    if kinds:
+                        k = rng.choice(kinds)
+                        trial[f][2] = k
+                        trial[f][3] = self._content(rid) if k == "file" else (None if k == "directory" else "lnk " + rid)
+                        trial[f][4] = 0
+                        tag = "kind_change"
+            else:
+                # resurrect a file id that existed in some earlier revision of the model
+                gone = sorted({(f, tuple(e)) for s in self.mh.revs.values() for f, e in s["tree"].items() if f not in trial and e[0] is not None}, key=repr)
+                if gone:
+                    f, e = rng.choice(gone)
+                    e = list(e)
+                    if e[0] in trial and trial[e[0]][2] == "directory":
+                        if any(x[0] == e[0] and x[1] == e[1] for x in trial.values()):
+                            e[1] = self._free_name(trial, e[0])
+                        trial[f] = e
+                        tag = "resurrect"
+            if tag and ft_valid(trial):
+                tree.clear()
+                tree.update(trial)
+                tags.add(tag)
+        return tree
+
+    def _old_contents(self, fid):
+        out = sorted({s["tree"][fid][3] for s in self.mh.revs.values() if fid in s["tree"] and s["tree"][fid][2] == "file"})
+        return out
+
+    def merged_tree(self, this, other, rid, tags):
+        """Per-file merge decisions: keep this side, take the other side, mix, or a new
+        text.  Returns a valid tree."""
+        rng = self.rng
+        tree = {f: list(e) for f, e in this.items()}
+        for fid in sorted(set(this) | set(other)):
+            trial = {f: list(e) for f, e in tree.items()}
+            tag = None
+            if fid in this and fid not in tree:
+                continue  # went away with a directory deleted by an earlier decision
+            if fid in this and fid in other:
+                if list(this[fid]) == list(other[fid]):
+                    continue
+                r = rng.random()
+                if r < 0.40:
+                    tag = "merge_keep_this"  # includes "revert one file after merge"
+                elif r < 0.80:
+                    trial[fid] = list(other[fid])
+                    tag = "merge_take_other"
+                elif r < 0.90:
+                    trial[fid][2:] = list(other[fid][2:])
+                    tag = "merge_mix"
+                else:
+                    if trial[fid][2] == "file":
+                        trial[fid][3] = self._content(rid)
+                        tag = "merge_new_text"
+            elif fid in other:
+                if rng.random() < 0.7:
+                    trial[fid] = list(other[fid])
+                    tag = "merge_add_from_other"
+            else:
+                if rng.random() < 0.2 and this[fid][0] is not None:
+                    for g in ft_subtree(trial, fid):
+                        trial.pop(g)
+                    tag = "merge_delete"
+            if tag and ft_valid(trial):
+                tree = trial
+                tags.add(tag)
+        # directories that lost their parent in a delete were removed with it; make sure
+        assert ft_valid(tree)
+        return tree
+
+    # -- operations --------------------------------------------------------------------
+    def op_root(self, branch):
+        tree = {ROOT_ID: [None, "", "directory", None, 0]}
+        tags = {"root"}
+        rid_preview = f"{self.prefix}{branch}-{self.mh.nrev.get(branch, 0) + 1}"
+        for _ in range(self.rng.randint(1, 4)):
+            tree[self._fid()] = self._new_entry(tree, rid_preview)
+        return self._emit(branch, [], tree, tags)
+
+    def op_edit(self, branch, base=None):
+        """One ordinary commit on `branch` (forked from revision `base` if new)."""
+        mh = self.mh
+        p0 = mh.tips.get(branch, base)
+        tags = {"edit"} if branch in mh.tips else {"edit", "fork"}
+        rid_preview = f"{self.prefix}{branch}-{mh.nrev.get(branch, 0) + 1}"
+        tree = {f: list(e) for f, e in mh.tree(p0).items()}
+        self.edit(tree, rid_preview, tags)
+        parents = [p0]
+        ghosts = []
+        if self.ghosts and self.rng.random() < self.ghosts:
+            mh.nghost += 1
+            g = f"{self.prefix}ghost-{mh.nghost}"
+            parents.append(g)
+            ghosts.append(g)
+            tags.add("ghost_parent")
+        return self._emit(branch, parents, tree, tags, ghosts)
+
+    def op_merge(self, branch, other_rid, extra_tags=()):
+        mh = self.mh
+        p0 = mh.tips[branch]
+        tags = {"merge"} | set(extra_tags)
+        rid_preview = f"{self.prefix}{branch}-{mh.nrev.get(branch, 0) + 1}"
+        tree = self.merged_tree(mh.tree(p0), mh.tree(other_rid), rid_preview, tags)
+        if self.rng.random() < 0.25:
+            self.edit(tree, rid_preview, tags, n=1)
+        return self._emit(branch, [p0, other_rid], tree, tags)
+
+    def op_same_change(self, b1, b2):
+        """The identical change committed independently on two branches."""
+        mh = self.mh
+        t1 = {f: list(e) for f, e in mh.tree(mh.tips[b1]).items()}
+        t2 = {f: list(e) for f, e in mh.tree(mh.tips[b2]).items()}
+        common = sorted(f for f in t1 if f in t2 and t1[f][0] is not None and t1[f][2] == t2[f][2])
+        if not common:
+            return None
+        f = self.rng.choice(common)
+        r = self.rng.random()
+        if t1[f][2] == "file" and r < 0.6:
+            c = self._content("same" + str(len(mh.revs)))
+            t1[f][3] = t2[f][3] = c
+            tag = "same_content_change"
+        elif t1[f][2] == "file" and r < 0.8 and self.exec_bits:
+            t1[f][4] = t2[f][4] = 1 - t1[f][4]
+            tag = "same_exec_change"
+        else:
+            name = f"s{len(mh.revs)}"
+            t1[f][1] = t2[f][1] = name
+            tag = "same_rename"
+        if not (ft_valid(t1) and ft_valid(t2)):
+            return None
+        a = self._emit(b1, [mh.tips[b1]], t1, {tag, "identical_parallel"})
+        b = self._emit(b2, [mh.tips[b2]], t2, {tag, "identical_parallel"})
+        return a, b
+
+    def op_cherrypick(self, branch, rid):
+        """Apply the delta of revision `rid` (against its first parent) to the tip."""
+        mh = self.mh
+        p0 = mh.tips[branch]
+        src = mh.tree(rid)
+        pp = mh.present_parents(rid)
+        old = mh.tree(pp[0]) if pp else {}
+        tree = {f: list(e) for f, e in mh.tree(p0).items()}
+        tags = {"cherrypick"}
+        changed = False
+        for fid in sorted(set(src) | set(old)):
+            trial = {f: list(e) for f, e in tree.items()}
+            if fid in src and list(src[fid]) != list(old.get(fid, [])):
+                trial[fid] = list(src[fid])
+            elif fid not in src and fid in trial and trial[fid][0] is not None:
+                for g in ft_subtree(trial, fid):
+                    trial.pop(g)
+            else:
+                continue
+            if ft_valid(trial) and trial != tree:
+                tree = trial
+                changed = True
+        if not changed:
+            self.edit(tree, f"{branch}-cp", tags, n=1)
+        return self._emit(branch, [p0], tree, tags)
+
+    def run(self, nrev, nbranch=None, merge_p=0.3):
+        """Generate about `nrev` revisions."""
+        rng = self.rng
+        mh = self.mh
+        nbranch = nbranch or rng.choice([2, 2, 3, 3, 4])
+        names = [chr(ord("p") + i) for i in range(nbranch)]  # p q r s
+        if not mh.tips:
+            self.op_root(names[0])
+        while len(self.specs) < nrev:
+            live = sorted(mh.tips)
+            r = rng.random()
+            unborn = [n for n in names if n not in mh.tips]
+            if unborn and (r < 0.25 or len(live) < 2):
+                if rng.random() < 0.12:
+                    self.op_root(unborn[0])  # unrelated history with the same root id
+                else:
+                    self.op_edit(unborn[0], base=rng.choice(mh.order))
+                continue
+            b = rng.choice(live)
+            others = [o for o in live if o != b and mh.tips[o] not in mh.ancestry(mh.tips[b])]
+            r = rng.random()
+            if r < merge_p and others:
+                o = rng.choice(others)
+                a_tip, b_tip = mh.tips[b], mh.tips[o]
+                if rng.random() < 0.3 and a_tip not in mh.ancestry(b_tip):
+                    # criss-cross: both sides merge the other's tip
+                    self.op_merge(b, b_tip, ("crisscross",))
+                    self.op_merge(o, a_tip, ("crisscross",))
+                else:
+                    self.op_merge(b, b_tip)
+            elif r < merge_p + 0.12 and len(live) >= 2:
+                o = rng.choice([x for x in live if x != b])
+                self.op_same_change(b, o)
+            elif r < merge_p + 0.20:
+                cand = [x for x in mh.order if x not in mh.ancestry(mh.tips[b])]
+                if cand:
+                    self.op_cherrypick(b, rng.choice(cand))
+                else:
+                    self.op_edit(b)
+            else:
+                self.op_edit(b)
+        return self.specs
+
+
+def gen_dag(rng, nrev, mh=None, **kw):
+    """Seeded DAG history (list of specs) with merges, criss-cross merges, reverts after
+    merge, identical parallel changes, cherry-picks, kind changes, renames, exec-bit
+    changes, resurrected file ids and (ghosts=p) ghost right-hand parents."""
+    nbranch = kw.pop("nbranch", None)
+    merge_p = kw.pop("merge_p", 0.3)
+    g = DagGen(rng, mh, **kw)
+    g.run(nrev, nbranch=nbranch, merge_p=merge_p)
+    return g.specs
+
+
+# -- real world: committing model trees through a real working tree -------------------
+
+
+def model_inventory(tree):
+    """A bzrformats Inventory for a model tree (revision fields unset)."""
+    from bzrformats.inventory import Inventory, InventoryDirectory, InventoryFile, InventoryLink
+
+    inv = Inventory(root_id=None)
+    paths = ft_paths(tree)
+    for fid in sorted(tree, key=lambda f: (paths[f].count("/") if paths[f] else -1, paths[f])):
+        par, name, kind, content, ex = tree[fid]
+        f = fid.encode()
+        p = par.encode() if par is not None else None
+        if kind == "directory":
+            e = InventoryDirectory(f, name, p)
+        elif kind == "file":
+            e = InventoryFile(f, name, p, executable=bool(ex))
+        else:
+            e = InventoryLink(f, name, p, symlink_target=content)
+        inv.add(e)
+    return inv
+
+
+def sync_wt(wt, tree):
+    """Make the working tree (disk + inventory) equal to the model tree."""
+    import os
+    import shutil
+
+    root = wt.basedir
+    for n in os.listdir(root):
+        if n == ".bzr":
+            continue
+        p = os.path.join(root, n)
+        if os.path.isdir(p) and not os.path.islink(p):
+            shutil.rmtree(p)
+        else:
+            os.unlink(p)
+    paths = ft_paths(tree)
+    for fid in sorted(tree, key=lambda f: paths[f]):
+        par, name, kind, content, ex = tree[fid]
+        if par is None:
+            continue
+        p = os.path.join(root, paths[fid])
+        if kind == "directory":
+            os.mkdir(p)
+        elif kind == "file":
+            with open(p, "wb") as f:
+                f.write(content.encode())
+            os.chmod(p, 0o755 if ex else 0o644)
+        else:
+            os.symlink(content, p)
+    with wt.lock_tree_write():
+        wt._write_inventory(model_inventory(tree))
+
+
+class DagBuilder:
+    """Commits specs of an MDag through real working trees (lightweight checkouts on
+    local scratch disk of branches that live on simulated stores).
+
+    layout "shared": every branch in one shared repository at `url`;
+    layout "separate": one standalone repository per branch (`url`+name), revisions a
+    commit needs from elsewhere are fetched first (Repository.fetch)."""
+
+    def __init__(self, url, fmt, layout="shared", scratch=None, tag="w", make_repo=True):
+        import os
+
+        self.url = url
+        self.fmt = fmt
+        self.layout = layout
+        self.scratch = scratch or os.environ["VERIF_SCRATCH"]
+        self.tag = tag
+        self.wts = {}
+        self.home = {}  # rid -> branch name whose repository certainly has it
+        self.done = []
+        if layout == "shared" and make_repo:
+            make_shared_repo(url, fmt)
+
+    def branch_url(self, name):
+        return self.url + "b_" + name
+
+    def repo_urls(self):
+        if self.layout == "shared":
+            return [self.url]
+        return [self.branch_url(n) for n in sorted(self.wts)]
+
+    def forget(self):
+        """Drop every cached object (the next commit re-opens tree and branch)."""
+        for name in list(self.wts):
+            self.wts[name] = None
+
+    def _wt(self, name):
+        import os
+
+        from breezy.workingtree import WorkingTree
+
+        wt = self.wts.get(name)
+        if wt is None:
+            wt = WorkingTree.open(os.path.join(self.scratch, f"{self.tag}_{name}"))
+            self.wts[name] = wt
+        return wt
+
+    def _ensure_revs(self, repo, revids):
+        if self.layout == "shared":
+            return
+        for r in revids:
+            if r in self.home and not repo.has_revision(r.encode()):
+                src = open_repo(self.branch_url(self.home[r]))
+                repo.fetch(src, revision_id=r.encode())
+
+    def _create(self, name, p0):
+        import os
+
+        b = make_branch(self.branch_url(name), self.fmt)
+        if p0 is not None:
+            self._ensure_revs(b.repository, [p0])
+            b.generate_revision_history(p0.encode())
+        path = os.path.join(self.scratch, f"{self.tag}_{name}")
+        wt = b.create_checkout(path, lightweight=True)
+        self.wts[name] = wt
+        return wt
+
+    def commit(self, spec):
+        name = spec["branch"]
+        parents = spec["parents"]
+        p0 = parents[0] if parents else None
+        if name not in self.wts:
+            wt = self._create(name, p0)
+        else:
+            wt = self._wt(name)
+        self._ensure_revs(wt.branch.repository, parents)
+        wt.set_parent_ids([p.encode() for p in parents])
+        sync_wt(wt, spec["tree"])
+        props = dict(spec.get("props") or {})
+        props.setdefault("branch-nick", name)
+        wt.commit(
+            message=spec["msg"],
+            rev_id=spec["id"].encode(),
+            timestamp=spec["ts"],
+            timezone=spec.get("tz", 0),
+            committer=spec.get("committer", COMMITTER),
+            revprops=props,
+        )
+        self.home[spec["id"]] = name
+        self.done.append(spec["id"])
+
+
+def real_tree(repo, rid):
+    """{fid: [parent_fid, name, kind, content, exec, last_changed]} of a stored revision."""
+    tree = repo.revision_tree(rid.encode() if isinstance(rid, str) else rid)
+    out = {}
+    for path, ie in tree.iter_entries_by_dir():
+        fid = ie.file_id.decode()
+        par = ie.parent_id.decode() if ie.parent_id is not None else None
+        if ie.kind == "file":
+            content = tree.get_file_text(path).decode()
+            ex = int(bool(ie.executable))
+        elif ie.kind == "symlink":
+            content = ie.symlink_target
+            ex = 0
+        else:
+            content = None
+            ex = 0
+        out[fid] = [par, ie.name, ie.kind, content, ex, ie.revision.decode() if ie.revision else None, tree.get_file_revision(path).decode()]
+    return out
+
+
+def dag_problems(repo, mh, revids, per_file=True, root_too=None):
+    """Compare stored revisions with the model: tree content, revision parents, and (C02)
+    last-changed revisions and per-file parents.  Yields (kind, rid, fid, detail)."""
+    rich = repo.supports_rich_root() if root_too is None else root_too
+    for rid in revids:
+        spec = mh.revs[rid]
+        try:
+            rev = repo.get_revision(rid.encode())
+            got = real_tree(repo, rid)
+        except Exception as e:  # noqa: BLE001
+            yield ("unreadable", rid, None, f"{type(e).__name__}: {e}")
+            continue
+        if [p.decode() for p in rev.parent_ids] != spec["parents"]:
+            yield ("parents", rid, None, f"{rev.parent_ids} != {spec['parents']}")
+        want = spec["tree"]
+        if {f: e[:5] for f, e in got.items()} != {f: list(e) for f, e in want.items()}:
+            diff = sorted(set(map(repr, ((f, e[:5]) for f, e in got.items()))) ^ set(map(repr, ((f, list(e)) for f, e in want.items()))))[:4]
+            yield ("tree", rid, None, f"stored tree differs from the committed one: {diff}")
+            continue
+        if not per_file:
+            continue
+        keys = []
+        for fid, e in sorted(got.items()):
+            if e[0] is None and not rich:
+                continue  # the root of a non-rich-root format has no per-file history
+            mv = mh.ver[rid][fid]
+            if e[5] != mv or e[6] != mv:
+                yield ("last_changed", rid, fid, f"{ft_path(want, fid)!r} ({fid}) last-changed {e[5]}/{e[6]}, model {mv} (model per-file parents {mh.fpar.get((fid, rid))}, revision parents {spec['parents']})")
+            if mv == rid:
+                keys.append((fid.encode(), rid.encode()))
+        pm = repo.texts.get_parent_map(keys)
+        for key in keys:
+            fid = key[0].decode()
+            want_p = tuple((key[0], p.encode()) for p in mh.fpar[(fid, rid)])
+            if key not in pm:
+                yield ("text_missing", rid, fid, f"no text key {key}")
+            elif tuple(pm[key]) != want_p:
+                yield ("text_parents", rid, fid, f"{ft_path(want, fid)!r} ({fid}) per-file parents {pm[key]}, model heads {want_p}")
+
+
+_dag_warmed = False
+
+
+def warm_dag(fmts=("2a", "pack-0.92")):
+    """Exercise the working-tree commit route once per format, pre-fork."""
+    global _dag_warmed
+    warm()
+    if _dag_warmed:
+        return
+    import os
+    import random
+    import shutil
+    import tempfile
+
+    from simkit.sim import Sim
+
+    sim = Sim(0)
+    world.setup_sim(sim)
+    scratch = tempfile.mkdtemp(prefix="warmdag", dir=os.environ.get("VERIF_SCRATCH_BASE") or "/dev/shm")
+    try:
+        for i, fmt in enumerate(fmts):
+            url = world.new_store(f"warmdag{i}")
+            rng = random.Random(5)
+            specs = gen_dag(rng, 6, ghosts=0.2)
+            mh = replay_dag(specs)
+            db = DagBuilder(url, fmt, "shared", scratch=scratch, tag=f"w{i}")
+            for s in specs:
+                db.commit(s)
+            db.forget()
+            r = open_repo(url)
+            with r.lock_read():
+                list(dag_problems(r, mh, mh.order))
+            check_clean(r)
+            with r.lock_write():
+                r.pack()
+    finally:
+        shutil.rmtree(scratch, ignore_errors=True)
+        world.reset_stores()
+    _dag_warmed = True
